@@ -22,6 +22,9 @@ func init() {
 }
 
 func runC18(p *Prog, r *Report) {
+	if want("C18.14") {
+		ruleOptGetters(p, r, "C18.14", "read-only and open contracts", "Options.GetReadOnly", "Options.GetErrorIfExist", "Options.GetErrorIfMissing")
+	}
 	if want("C18.13") {
 		// (shared with C09)
 		ruleCompTriggerSiblings(p, r, "C18.13")
